@@ -174,7 +174,14 @@ def table_owner(repo: Repo, rep):
         if not is_new and writes:
             rep.violation("R-TABLE-OWNER", f, f.node, "a known call site is overwritten with a fresh state: observations of earlier evaluations (loops, several tests) are lost", trace_str(o), construct="overwrite")
             ok = False
-        if not is_new and not any(e[1][0] == "item" and e[1][1] == snaps for e in reev if isinstance(e[1], tuple)):
+
+        def _entry(t):
+            # the table entry itself or an attribute of it (`state().snapshots[key]._value._re_eval(...)`)
+            while isinstance(t, tuple) and t and t[0] == "attr":
+                t = t[1]
+            return isinstance(t, tuple) and len(t) > 1 and t[0] == "item" and t[1] == snaps
+
+        if not is_new and not any(_entry(e[1]) for e in reev):
             rep.violation("R-TABLE-OWNER", f, f.node, "a known call site is evaluated again without _re_eval(): a changed argument is not detected and unmanaged values are not refreshed", trace_str(o), construct="no-reeval")
             ok = False
         r = o.ret
@@ -499,7 +506,7 @@ def reeval_fresh(repo: Repo, rep):
                 )
             else:
                 rep.ok("R-REEVAL-FRESH", f, c, f"_re_eval({short(a0, 30)}, ...) from the fresh argument")
-    rep.floor("R-REEVAL-FRESH", "_re_eval call sites", n, 4)
+    rep.floor("R-REEVAL-FRESH", "_re_eval call sites", n, 3)  # 4 today; the SnapshotReference delegator is optional (a refactoring may call _value._re_eval directly)
 
 
 AST_LISTS = ("args", "elts", "keywords")
